@@ -9,7 +9,7 @@ Separate Extraction
   Base.utf8_len Base.blen
   Token.tspan Token.concatenation Token.tok_is_empty Token.tsize
   Parse.parse
-  Regex.print Regex.print_program Regex.m Regex.ngroups Regex.get_cap Regex.re_size
+  Regex.print Regex.print_program Regex.m Regex.need Regex.run Regex.accepts Regex.ngroups Regex.get_cap Regex.re_size
   Spec.spec_match Spec.trees_exact Spec.trees_stable Spec.rooted_first_tree Spec.fnull Spec.has_reversed_range Spec.may_end_sep Spec.has_optional_rep
   Encode.encode Encode.enc_tok Encode.rep_in_limits Encode.re_nest
   Fold.depth_variance Fold.size_variance Fold.text_variance Fold.has_root Fold.is_exhaustive Fold.depth_closed_variant
